@@ -6,7 +6,14 @@ _NOTE = "Trusted: jax.make_jaxpr faithfully stages the real code; the E1 interpr
 
 _MC = "bounded symbolic model checking: jaxprs of the real GFI calls symbolically executed into z3 (all values symbolic, structure enumerated), counterexamples replayed on the real code"
 
+_TVT = "translation validation: two jaxprs traced from the real code (transformed vs. plain function) proved equivalent by symbolic execution + z3 for all inputs"
+
 CHECKS = {
+    "C09": (TV, _TVT, "incremental(f) primals == f(x) for all x, and 2-safety non-interference (outputs tagged NoChange agree on any two inputs that agree on the NoChange-tagged arguments), for 14 functions x all 2^n taggings. Bounded: function grammar enumerated, loops unrolled exactly (scan/fori) or to a checked bound (while).", _NOTE, "DESIGN.md section 4 C09"),
+    "C19": (MC, _MC, "12 Mask expressions vs their truth tables for all flag values and payloads: symbolic scalar and vector flags, every concrete/traced tagging, jax.vmap vs vectorised flags. " + _BND, _NOTE, "DESIGN.md section 4 C19"),
+    "C20": (MC, _MC, "FlagOp ops vs Boolean logic under every concrete/traced tagging; tree_choose == vs[idx mod n] for ALL integers with dtype promotion; multi_switch runs branch clamp(idx) and leaves zeros elsewhere for ALL integers. " + _BND, _NOTE, "DESIGN.md section 4 C20"),
+    "C31": (MC, _MC, "time_machine(f): final_retval, every frame's args/local value in execution order, fwd/bwd/jump pointer ranges, and remix at each frame with fresh symbolic arguments equal direct recomputation, for all inputs; 3 functions with nested / closure / array record points.", _NOTE, "DESIGN.md section 4 C31"),
+    "C36": (TV, _TVT, "stateful(f)(null handler, *x) == f(*x) for all x over the 14-function grammar plus initial-style primitives at top level, inside cond and inside scan (which must equal their wrapped function).", _NOTE, "DESIGN.md section 4 C36"),
     "C07": (MC, _MC, "Regenerate(sel): unselected sites unchanged, weight = reference newscore-oldscore, new trace equals the reference at its own values, empty selection => same trace and weight 0, for all values and selections (all/none/site/complement/prefix/wildcard/union). " + _BND, _NOTE, "DESIGN.md section 4 C07"),
     "C10": (MC, _MC, "project(S) equals the sum of reference log-densities of the selected sites and project(S)+project(~S) equals the score, for all values and the enumerated selections. " + _BND, _NOTE, "DESIGN.md section 4 C10"),
     "C11": (MC, _MC, "vmap/repeat vs (i) N separate calls of the inner program's own GFI and (ii) the reference; a constraint at a symbolic index i changes only element i; repeat == vmap over copies; N=0 is empty with score 0. " + _BND, _NOTE, "DESIGN.md section 4 C11"),
